@@ -79,6 +79,13 @@ def run(ctx, dangling_clause=True):
            what="new_id is not advanced for every object: numbers are not consecutive")
     srt = [c for c in b.calls if re.search(r"sort_unstable$|::sort$", c.fn or "") and "ids" in b.oname(c.args[0], 4)]
     ctx.ob(R, "ids-sorted", len(srt) == 1, "old ids are processed in ascending order", b.where(), what="old ids are no longer sorted before numbers are assigned (order of objects would change)")
+    # the snapshot of the keys that the numbering pass works from is taken after the page-ordering pass (which changes keys: a
+    # page moved onto another page's number keeps its own generation)
+    kc = [c for c in b.calls if re.search(r"BTreeMap::<.*>::(keys|into_keys)$", c.fn or "") and "self.objects" in b.oname(c.args[0], 4)]
+    tr0 = sorted(lib.local_calls(F, b, "Document::traverse_objects"), key=lambda c: c.ln)
+    oks = bool(kc) and (len(tr0) < 2 or all(not b.can_reach(k.bb, tr0[0].bb) for k in kc))
+    ctx.ob(R, "keys-snapshot-after-page-pass", oks, "the sorted key snapshot is taken after the page-ordering pass", b.where(kc[0].ln if kc else None),
+           what="renumber_objects_with takes the snapshot of object keys before the page-ordering pass has run: that pass changes keys, so the numbering pass works from stale ones and leaves objects under their old numbers")
     # traversal after each move, with the same map
     tr = lib.local_calls(F, b, "Document::traverse_objects")
     ctx.floor(R, "traverse_objects calls", len(tr), 2)
